@@ -214,7 +214,7 @@ def main(argv=None) -> int:
                         }, f,
                     )
         try:
-            shard_results = shard_async.get(timeout=budget * 2 + 300)
+            shard_results = shard_async.get(timeout=budget * 2 + 600)
         except mp.TimeoutError:
             pool.terminate()
             print(f'HARNESS-ERROR property={prop} shards exceeded hard limit')
